@@ -36,6 +36,7 @@ def gen_ops(rng, tier):
         o = _C03.one(rng).split(" ")
         o[7] = str(rng.choice([0, 1, 2, 3, 3, 3, 6]))         # Huffman-coded processes only
         if o[11] not in ("-1", "0", "1", "2", "3", "6"): o[11] = "-1"
+        o.append(str(rng.choice([0, 0, 0, 1, 2, 3, 4])))        # quantisation tables: default / 16-bit entries in table 0, 1, both / all ones
         ops.append(" ".join(o))
     for _ in range(1500 if big else 320):
         hv = rng.choice(HV)
